@@ -754,6 +754,10 @@ func newDst(kind string) (oras.Target, func(), error) {
 // decoded by case_to_replay in bin/props.d/C03.py.
 func replayTok(spec *caseSpec) string {
 	js, _ := json.Marshal(spec)
+	return rawReplayTok(js)
+}
+
+func rawReplayTok(js []byte) string {
 	var buf bytes.Buffer
 	zw := zlib.NewWriter(&buf)
 	zw.Write(js)
@@ -1571,6 +1575,7 @@ func main() {
 			}
 		}
 	}
+	smallScope(r)
 	coverageFloors()
 	for _, res := range []bool{true, false} {
 		for _, gok := range []bool{true, false} {
@@ -1605,6 +1610,7 @@ func coverageFloors() {
 		need(k, 100)
 	}
 	need("graph=fan", 100)
+	need("small-scope", 2000)
 	need("referrers-by-type", 100)
 	need("fault=hit", 50)
 	need("findRoots-fault=error", 50)
@@ -1652,6 +1658,13 @@ func replay(path string) {
 			var a []any
 			if json.Unmarshal(w, &a) == nil && len(a) == 5 {
 				wrapperCase(a[0].(bool), a[1].(bool), a[2].(bool), a[3].(string), a[4].(string))
+			}
+			continue
+		}
+		if sg, ok := probe["smallgraph"]; ok {
+			var sc smallCase
+			if json.Unmarshal(sg, &sc) == nil {
+				runSmall(&sc)
 			}
 			continue
 		}
